@@ -6,6 +6,8 @@ From DV.lib Require Import PyNum PyRt Angle.
 From DV.gen Require Import Gen_bbox_utils Gen_keypoints_utils.
 From DV.model Require Import Framework.
 From DV.proofs Require Import C10_box C10_kp Fw.
+From DV.gen Require Import Gen_bbox_proc.
+From DV.proofs Require Import C04_filter C04_sound C10_filter.
 Open Scope Q_scope.
 
 Theorem C10_bbox_roundtrip : forall fmt b r c s n,
@@ -46,3 +48,14 @@ Theorem C10_bbox_processor_wiring : forall fmt data r c s,
   BboxProcessor_convert_from_dicaugment fmt data r c s = convert_bboxes_from_dicaugment data fmt r c s true.
 Proof. intros. split; reflexivity. Qed.
 Print Assumptions C10_bbox_processor_wiring.
+
+(* the filter runs after every call, also when nothing fired: boxes inside the frame that meet the configured
+   thresholds (each compared with its OWN quantity: [keepb]) all come back, in order, with unchanged coordinates *)
+Theorem C10_boxes_meeting_the_thresholds_pass_the_filter : forall t r c s l,
+  (0 < r)%Z -> (0 < c)%Z -> (0 < s)%Z ->
+  Forall proper_box l -> Forall in_unit l -> Forall (fun b => keepb t b r c s = true) l ->
+  exists out,
+    BboxProcessor_filter (t_area_vis t) (t_d t) (t_h t) (t_area t) (t_vol t) (t_vol_vis t) (t_w t) l r c s = Ok out /\
+    Forall2 box_eq out l.
+Proof. exact processor_filter_keeps_all. Qed.
+Print Assumptions C10_boxes_meeting_the_thresholds_pass_the_filter.
